@@ -20,15 +20,15 @@ def run(tier):
     tr = os.path.join(WORK, "trace_C17.ndjson")
     i = 0
     modes = [m for m in clitrace.MODES if (m["fmt"] in ("sjson", "junit", "pjson") or m["args"] == ["-S", "all"])]
-    stats = {"disjoint": 0, "overlap": 0}
+    stats = {"disjoint": 0, "overlap_param_param": 0, "overlap_param_data": 0}
     with open(tr, "w") as f:
         pairs = clitrace.gen_pairs(seed() * 7351, n, "full")
         for k, c in enumerate(pairs):
             if c["doc"]["t"] != "map" or len(c["doc"]["k"]) < 1:
                 continue
-            overlap = (k % 4 == 0)
+            overlap = [False, "pp", False, "pd", False, "pp"][k % 6]
             pdocs, ddoc = clitrace.split_top(c["doc"], rnd, overlap)
-            stats["overlap" if overlap else "disjoint"] += 1
+            stats[{False: "disjoint", "pp": "overlap_param_param", "pd": "overlap_param_data"}[overlap]] += 1
             rules = [{"parse": "ok", "prog": c["prog"], "text": c["rules"]}]
             texts = clitrace.render_docs(pdocs + [ddoc])
             data = [{"load": "ok", "doc": ddoc, "text": texts[-1]}]
